@@ -304,6 +304,17 @@ GROUPS = {
         nontrivial='histories with at least three sends',
         functions=['Clients::{register, unregister, send_packet}', 'Client::{try_send_packet, start_shutdown}'],
     ),
+    # second line behind the Verus unit hooks
+    'hooks_bx': dict(
+        unit='hooks.rs', props=['C42'],
+        bounds=dict(quick=['3', '0'], thorough=['5', '0']),
+        space='outgoing: every list of at most {0} before-connect hooks (each accepting or rejecting) x 5 protocol-name settings (normal, empty, empty with an additional name, '
+              'additional names incl. an empty one, a duplicate) x remote = another id / the endpoint\'s own id x endpoint open / closed x address resolution succeeding / failing two '
+              'ways x the QUIC connect call succeeding / failing; after the handshake: every list of at most {0} hooks, each accepting or rejecting with its own code and reason, with '
+              'the connection\'s registration succeeding or failing',
+        nontrivial='lists of at least two hooks',
+        functions=['EndpointHooksList::{before_connect, after_handshake}', 'Endpoint::connect_with_opts', 'conn_from_noq_conn (the handshake-completion block)'],
+    ),
     # second line behind the Verus unit builder_bind
     'builder_bind_bx': dict(
         unit='builder_bind.rs', props=['C20'], takes_deferred=True,
